@@ -110,6 +110,8 @@ class Facts:
                                 'n_bodies': len(d['bodies'])})
             kind = d['kind']
             for rb in d['bodies']:
+                from .vecmacro import rewrite as _vec_rewrite
+                _vec_rewrite(rb)
                 b = Body(rb, kind)
                 if rb.get('def_kind', '').startswith(('Const', 'AssocConst', 'Static')):
                     self.consts[self.norm(b.path)] = b      # initialisers of named constants: never call-graph nodes
